@@ -101,7 +101,7 @@ def _reg(tool):
 
 I, T, N = "item", "truthy", "num"
 
-_reg(Tool("zip", "iter", (0, 4),
+_reg(Tool("zip", "iter", (0, 8),
           lambda S, F, P, V: a.zip(*S, strict=P["strict"]),
           lambda S, F, P, V: builtins.zip(*S, strict=P["strict"])))
 _reg(Tool("map", "iter", (1, 4),
@@ -111,25 +111,25 @@ _reg(Tool("map", "iter", (1, 4),
 _reg(Tool("filter", "iter", (1, 1),
           lambda S, F, P, V: a.filter(F.get("pred"), S[0]),
           lambda S, F, P, V: builtins.filter(F.get("pred"), S[0]),
-          optional_roles=(("pred", "table"),), profiles=(I, T)))
+          optional_roles=(("pred", "table"),), profiles=(I, T, 'grumpy-bool')))
 _reg(Tool("enumerate", "iter", (1, 1),
           lambda S, F, P, V: a.enumerate(S[0], P["start"]),
           lambda S, F, P, V: builtins.enumerate(S[0], P["start"])))
 _reg(Tool("iter_sentinel", "iter", (1, 1),
           lambda S, F, P, V: a.iter(S[0], V["sentinel"]),
           lambda S, F, P, V: builtins.iter(S[0], V["sentinel"]),
-          callsrc=True, profiles=(I, N)))
+          callsrc=True, profiles=(I, N, 'grumpy-eq')))
 _reg(Tool("accumulate", "iter", (1, 1),
           lambda S, F, P, V: (a.accumulate(S[0], F["fn"], **_kw(initial=_opt(V, "initial")))
                               if "fn" in F else
                               a.accumulate(S[0], **_kw(initial=_opt(V, "initial")))),
           lambda S, F, P, V: _accumulate_ref(S[0], F.get("fn"), V),
-          optional_roles=(("fn", "derive"),), profiles=(I, N)))
+          optional_roles=(("fn", "derive"),), profiles=(I, N, 'grumpy-add')))
 _reg(Tool("batched", "iter", (1, 1),
           lambda S, F, P, V: a.batched(S[0], P["n"], strict=P["strict"]),
           lambda S, F, P, V: _batched_ref(S[0], P["n"], P["strict"]),
           window=None))
-_reg(Tool("chain", "iter", (0, 4),
+_reg(Tool("chain", "iter", (0, 8),
           lambda S, F, P, V: a.chain(*S),
           lambda S, F, P, V: itertools.chain(*S)))
 _reg(Tool("chain_from_iterable", "iter", (0, 4),
@@ -139,7 +139,7 @@ _reg(Tool("chain_from_iterable", "iter", (0, 4),
 _reg(Tool("compress", "iter", (2, 2),
           lambda S, F, P, V: a.compress(S[0], S[1]),
           lambda S, F, P, V: itertools.compress(S[0], S[1]),
-          profiles=(I, T)))
+          profiles=(I, T, 'grumpy-bool')))
 _reg(Tool("cycle", "iter", (1, 1),
           lambda S, F, P, V: a.cycle(S[0]),
           lambda S, F, P, V: itertools.cycle(S[0]),
@@ -151,7 +151,7 @@ _reg(Tool("dropwhile", "iter", (1, 1),
 _reg(Tool("filterfalse", "iter", (1, 1),
           lambda S, F, P, V: a.filterfalse(F.get("pred"), S[0]),
           lambda S, F, P, V: itertools.filterfalse(F.get("pred"), S[0]),
-          optional_roles=(("pred", "table"),), profiles=(I, T)))
+          optional_roles=(("pred", "table"),), profiles=(I, T, 'grumpy-bool')))
 _reg(Tool("islice", "iter", (1, 1),
           lambda S, F, P, V: a.islice(S[0], *P["args"]),
           lambda S, F, P, V: itertools.islice(S[0], *P["args"])))
@@ -170,10 +170,10 @@ _reg(Tool("tee", "iter", (1, 1),
           lambda S, F, P, V: a.tee(S[0], P["n"]),
           lambda S, F, P, V: itertools.tee(S[0], P["n"]),
           multi_out=True, streaming=False))
-_reg(Tool("zip_longest", "iter", (0, 4),
+_reg(Tool("zip_longest", "iter", (0, 8),
           lambda S, F, P, V: a.zip_longest(*S, **_kw(fillvalue=_opt(V, "fillvalue"))),
           lambda S, F, P, V: itertools.zip_longest(*S, **_kw(fillvalue=_opt(V, "fillvalue")))))
-_reg(Tool("merge", "iter", (0, 4),
+_reg(Tool("merge", "iter", (0, 8),
           lambda S, F, P, V: a.merge(*S, key=F.get("key"), reverse=P["reverse"]),
           lambda S, F, P, V: heapq.merge(*S, key=F.get("key"), reverse=P["reverse"]),
           optional_roles=(("key", "table"),), profiles=(I,)))
@@ -182,22 +182,22 @@ _reg(Tool("merge", "iter", (0, 4),
 
 _reg(Tool("all", "agg", (1, 1),
           lambda S, F, P, V: a.all(S[0]),
-          lambda S, F, P, V: builtins.all(S[0]), profiles=(I, T)))
+          lambda S, F, P, V: builtins.all(S[0]), profiles=(I, T, 'grumpy-bool')))
 _reg(Tool("any", "agg", (1, 1),
           lambda S, F, P, V: a.any(S[0]),
-          lambda S, F, P, V: builtins.any(S[0]), profiles=(I, T)))
+          lambda S, F, P, V: builtins.any(S[0]), profiles=(I, T, 'grumpy-bool')))
 _reg(Tool("sum", "agg", (1, 1),
           lambda S, F, P, V: a.sum(S[0], *_positional_opt(V, "start")),
           lambda S, F, P, V: builtins.sum(S[0], *_positional_opt(V, "start")),
-          profiles=(I, N, "lists", "inexact")))
+          profiles=(I, N, "lists", "inexact", 'grumpy-add')))
 _reg(Tool("min", "agg", (1, 1),
           lambda S, F, P, V: a.min(S[0], **_kw(key=F.get("key", _ABSENT), default=_opt(V, "default"))),
           lambda S, F, P, V: builtins.min(S[0], **_kw(key=F.get("key", _ABSENT), default=_opt(V, "default"))),
-          optional_roles=(("key", "table"),), profiles=(I, N, "unorderable")))
+          optional_roles=(("key", "table"),), profiles=(I, N, "unorderable", 'grumpy-order')))
 _reg(Tool("max", "agg", (1, 1),
           lambda S, F, P, V: a.max(S[0], **_kw(key=F.get("key", _ABSENT), default=_opt(V, "default"))),
           lambda S, F, P, V: builtins.max(S[0], **_kw(key=F.get("key", _ABSENT), default=_opt(V, "default"))),
-          optional_roles=(("key", "table"),), profiles=(I, N, "unorderable")))
+          optional_roles=(("key", "table"),), profiles=(I, N, "unorderable", 'grumpy-order')))
 _reg(Tool("list", "agg", (0, 1),
           lambda S, F, P, V: a.list(*S[:1]),
           lambda S, F, P, V: builtins.list(*S[:1]), profiles=(I, N), streaming=False))
@@ -206,7 +206,7 @@ _reg(Tool("tuple", "agg", (0, 1),
           lambda S, F, P, V: builtins.tuple(*S[:1]), profiles=(I, N), streaming=False))
 _reg(Tool("set", "agg", (0, 1),
           lambda S, F, P, V: a.set(*S[:1]),
-          lambda S, F, P, V: builtins.set(*S[:1]), profiles=(I, N, "unhashable"),
+          lambda S, F, P, V: builtins.set(*S[:1]), profiles=(I, N, "unhashable", 'grumpy-hash'),
           streaming=False))
 _reg(Tool("dict", "agg", (0, 1),
           lambda S, F, P, V: a.dict(*S[:1], **V.get("kw", {})),
@@ -215,7 +215,7 @@ _reg(Tool("dict", "agg", (0, 1),
 _reg(Tool("sorted", "agg", (1, 1),
           lambda S, F, P, V: a.sorted(S[0], key=F.get("key"), reverse=P["reverse"]),
           lambda S, F, P, V: builtins.sorted(S[0], key=F.get("key"), reverse=P["reverse"]),
-          optional_roles=(("key", "table"),), profiles=(I, N, "unorderable"),
+          optional_roles=(("key", "table"),), profiles=(I, N, "unorderable", 'grumpy-order'),
           streaming=False))
 _reg(Tool("reduce", "agg", (1, 1),
           lambda S, F, P, V: a.reduce(F["fn"], S[0], *_positional_opt(V, "initial")),
@@ -224,11 +224,11 @@ _reg(Tool("reduce", "agg", (1, 1),
 _reg(Tool("nlargest", "agg", (1, 1),
           lambda S, F, P, V: a.nlargest(S[0], P["n"], key=F.get("key")),
           lambda S, F, P, V: heapq.nlargest(P["n"], S[0], key=F.get("key")),
-          optional_roles=(("key", "table"),), profiles=(I, N), window=None))
+          optional_roles=(("key", "table"),), profiles=(I, N, 'grumpy-order'), window=None))
 _reg(Tool("nsmallest", "agg", (1, 1),
           lambda S, F, P, V: a.nsmallest(S[0], P["n"], key=F.get("key")),
           lambda S, F, P, V: heapq.nsmallest(P["n"], S[0], key=F.get("key")),
-          optional_roles=(("key", "table"),), profiles=(I, N), window=None))
+          optional_roles=(("key", "table"),), profiles=(I, N, 'grumpy-order'), window=None))
 
 ITER_TOOLS = [t.name for t in TOOLS.values() if t.kind == "iter"]
 AGG_TOOLS = [t.name for t in TOOLS.values() if t.kind == "agg"]
